@@ -69,6 +69,10 @@ func VerifC15DirectiveShapes() {
 		return
 	}
 	if err := PrepareQuery(context.Background(), sch.gql, q.SelectionSet); err != nil {
+		// (since repair 33e7b3b validation flattens every object selection set, so a
+		// bad directive condition is already refused here)
+		_, isClient := err.(SanitizedError)
+		nondet.Assert(isClient, "bad-condition-is-client-error")
 		nondet.Cover("rejected")
 		return
 	}
